@@ -45,13 +45,16 @@ def make_render_factory(ftag):
     return factory
 
 
-STATUS = {'ok': 200, 'brk404': 404, 'brk503': 503, 'brk409_ret': 409, 'brk400_ret': 400, 'nb403_raise': 403,
+STATUS = {'nbS403': 403, 'nbS404': 404, 'ok': 200, 'brk404': 404, 'brk503': 503, 'brk409_ret': 409, 'brk400_ret': 400, 'nb403_raise': 403,
           'nb404_ret': 404, 'nb404_raise': 404, 'nb403_ret': 403, 'boom': 500}
 
 
-def make_endpoint(tag, out):
-    """Endpoint echoing which route answered (X-R) and which resources are in scope."""
+def make_endpoint(tag, out, shared=None):
+    """Endpoint echoing which route answered (X-R) and which resources are in scope.
+    shared: {'nbS403': error object, ...} pre-built error objects that several routes hand back"""
     def ep(_route, _application):
+        if out in ('nbS403', 'nbS404'):
+            return shared[out]
         h = {'X-R': tag, 'X-Route-Res': ','.join(sorted(_route.resources)),
              'X-App-Res': ','.join(sorted(_application.resources))}
         if out == 'ctx':
@@ -78,6 +81,11 @@ def make_endpoint(tag, out):
         raise ValueError(tag)
     ep.__name__ = 'ep_' + tag
     return ep
+
+
+def make_shared_errors():
+    return {'nbS403': Forbidden(is_breaking=False, headers={'X-R': 'shared-nbS403'}),
+            'nbS404': NotFound(is_breaking=False, headers={'X-R': 'shared-nbS404'})}
 
 
 def norm(path, branch):
@@ -137,6 +145,9 @@ def dispatch_model(table, path, method):
                 return {'status': 200, 'tag': e['tag'], 'allow': None, 'location': None, 'entry': e}
             return {'status': 500, 'tag': None, 'allow': None, 'location': None}     # context without a renderer
         st = STATUS[e['out']]
+        if e['out'].startswith('nbS'):
+            last_nb = (st, 'shared-' + e['out'])      # the one pre-built object several routes return
+            continue
         if e['out'].startswith('nb'):
             last_nb = (st, e['tag'])
             continue
